@@ -91,6 +91,10 @@ def check_config(rep, prog):
         for _c, key, msg in mine:
             rule = rule_of.get(key, "S1")
             rep.violate("C01." + rule, "%s|%s" % (rule, key), rn.where(), msg, config=cfg)
+        # which control paths of render() and of the batch clipper the scenes took (information: the scenes are samples of input SHAPES)
+        for path, got, tot, miss in prog.__dict__.get("_render_sem_cover", []):
+            rep.inst("C01.S1", "scene coverage of %s: %d of %d blocks on entry-to-return paths executed by some scene%s"
+                     % (path.replace("retrofire_core::", ""), got, tot, "; not executed: " + ", ".join(m.split("/")[-1] for m in miss[:8]) if miss else ""), config=cfg)
     rep.guard(pipeline_block)
 
     # ---- S4: what Scanline::fragments yields, by symbolic interpretation: Frag{pos, var / pos.z} for every item of self.vs
